@@ -55,6 +55,7 @@ def accessor_uses(prog, mod):
         raise CheckError("built_ins::%s not found" % mod)
     out = {}
     raw = {}
+    sites = {}
     for f in fs:
         pv = mir.Prov(f.body)
         for b, t in f.body.calls():
@@ -67,9 +68,65 @@ def accessor_uses(prog, mod):
                 continue
             if "VariantCasts::" in cp:
                 out.setdefault(i, set()).add(name)
+                sites.setdefault((i, name), []).append((f, b))
             elif name in ("try_cast",):
                 raw.setdefault(i, set()).add(name)
+    accessor_uses.sites = sites
     return out, raw, fs[0]
+
+
+def _error_blocks(body):
+    out = set()
+    for b, blk in enumerate(body.blocks):
+        for st in blk["s"]:
+            if st["k"] == "assign" and st["r"]["k"] == "agg" and st["r"].get("adt") == "core::result::Result" \
+                    and st["r"].get("variant") == "Err":
+                out.add(b)
+        t = blk["t"]
+        if t["k"] == "call" and (t.get("cpath") or "").endswith("FromResidual::from_residual"):
+            out.add(b)
+    return out
+
+
+def _is_arity_test(pv, t):
+    """the switch looks at whether an optional argument exists: the discriminant of `variables().get(k)`
+    or a comparison with the number of arguments"""
+    p = mir.op_place(t["o"])
+    if p is None:
+        return False
+    o = pv.of_place(p)
+    if o[0] == "discr":
+        base = mir.strip_all(o[1])
+        return base[0] == "call" and base[1].split("::")[-1] == "get"
+    return mir.origin_mentions(o, lambda x: x[0] == "call" and x[1].split("::")[-1] == "len")
+
+
+def bypass_deciders(f, call_blocks):
+    """Branches of f that let a non-failing path reach a return without passing one of call_blocks:
+    [(switch block, is arity test)]; empty when every non-failing path passes the call."""
+    body = f.body
+    avoid = set(call_blocks) | _error_blocks(body)
+    free = body.reachable(0, avoid=avoid)
+    exits = set(body.exits())
+    if not (free & exits):
+        return []
+    pv = mir.Prov(body)
+    # blocks from which a return is reachable without the call
+    can_bypass = {b for b in free if body.reachable(b, avoid=avoid) & exits}
+    # blocks from which the call is still reachable
+    reaches_call = {b for b in range(body.nblocks) if body.reachable(b) & set(call_blocks)}
+    out = []
+    for b in sorted(can_bypass):
+        t = body.term(b)
+        if t["k"] != "switch" or b not in reaches_call:
+            continue
+        for x in body.succ(b):
+            if x in can_bypass and x not in reaches_call:
+                out.append((b, _is_arity_test(pv, t)))
+                break
+    if not out:
+        out.append((0, False))
+    return out
 
 
 def r1_accessors(ctx, rule="C17.R1"):
@@ -82,7 +139,21 @@ def r1_accessors(ctx, rule="C17.R1"):
                    "%s (argument %d of %s) is read through %s instead of %s: an out-of-range value is "
                    "not rejected with Illegal function call"
                    % (what, idx, mod, sorted(got | raw.get(idx, set())) or "nothing recognised", accessor))
-    ctx.require(rule, 7)
+        # ... on every non-failing path: a path that skips the accessor skips the range check. Only the
+        # absence of an optional argument may decide that the argument is not read
+        sites = accessor_uses.sites.get((idx, accessor), [])
+        by_fn = {}
+        for g, b in sites:
+            by_fn.setdefault(g.id, (g, []))[1].append(b)
+        for gid, (g, blocks) in sorted(by_fn.items()):
+            dec = bypass_deciders(g, blocks)
+            bad = [b for b, arity in dec if not arity]
+            ctx.decide(not bad, rule, key + ":on-every-path", g.loc,
+                       "every non-failing path reads %s through %s (%d arity branches aside)" % (what, accessor, len(dec)),
+                       "%s: a non-failing path of %s returns without reading argument %d through %s (the branch is "
+                       "not a test for an optional argument): on that path an out-of-range value is accepted "
+                       "instead of raising Illegal function call" % (what, g.name, idx, accessor))
+    ctx.require(rule, 14)
 
 
 def r2_accessor_ranges(ctx, rule="C17.R2"):
